@@ -474,12 +474,239 @@ fn gen_op(rng: &mut Rng, f: Fmt, bnd: &[BigInt], kind: u64) -> Op {
     }
 }
 
+
+// ------------------------------------------------------------------------------------------------
+// deterministic boundary family (identical for every seed)
+// ------------------------------------------------------------------------------------------------
+
+fn limit_targets(f: Fmt) -> Vec<BigInt> {
+    vec![f.min() - 1, f.min(), f.min() + 1, f.max() - 1, f.max(), f.max() + 1]
+}
+
+/// Every operation with results landing exactly on MIN / MAX and one unit beyond / inside, divisors and
+/// multipliers of +-1 atto, zero divisors, conversions at the limits of every source / target type.
+fn boundary_family() -> Vec<(Fmt, Op)> {
+    let mut out: Vec<(Fmt, Op)> = Vec::new();
+    for f in FMTS {
+        let one = f.one();
+        let t = limit_targets(f);
+        // add / sub: a + b = target, a - b = target
+        let firsts = [f.min(), f.max(), BigInt::zero(), BigInt::one(), -BigInt::one(), one.clone(), -one.clone(), f.min() / 2, f.max() / 2];
+        for a in &firsts {
+            for tg in &t {
+                let b = tg - a;
+                if f.fits(&b) {
+                    out.push((f, Op::Add(a.clone(), b.clone())));
+                    out.push((f, Op::Add(b, a.clone())));
+                }
+                let b = a - tg;
+                if f.fits(&b) {
+                    out.push((f, Op::Sub(a.clone(), b)));
+                }
+            }
+        }
+        // factors / divisors
+        let mut facs: Vec<BigInt> = Vec::new();
+        for m in [
+            BigInt::one(),
+            BigInt::from(2),
+            one.clone(),
+            &one * 2,
+            &one / 2,
+            &one * 3,
+            &one / 10,
+            &one * 10,
+            &one + 1,
+            &one - 1,
+            pow2(f.bits() / 2),
+        ] {
+            facs.push(m.clone());
+            facs.push(-m);
+        }
+        facs.push(f.max());
+        facs.push(f.min());
+        facs.push(f.min() + 1);
+        for a in &facs {
+            for tg in &t {
+                // mul: b with a*b/ONE next to the target
+                let b0 = trunc_div(&(tg * &one), a);
+                for dl in -2..=2 {
+                    let b = &b0 + dl;
+                    if f.fits(&b) {
+                        out.push((f, Op::Mul(a.clone(), b.clone())));
+                        out.push((f, Op::Mul(b, a.clone())));
+                    }
+                }
+                // div: numerator with num*ONE/a next to the target
+                let n0 = trunc_div(&(tg * a), &one);
+                for dl in -2..=2 {
+                    let n = &n0 + dl;
+                    if f.fits(&n) {
+                        out.push((f, Op::Div(n, a.clone())));
+                    }
+                }
+            }
+            for x in [f.min(), f.max(), BigInt::zero(), BigInt::one(), -BigInt::one()] {
+                out.push((f, Op::Mul(a.clone(), x.clone())));
+                out.push((f, Op::Div(x.clone(), a.clone())));
+                out.push((f, Op::Div(a.clone(), x)));
+            }
+        }
+        for x in [f.min(), f.min() + 1, f.max(), f.max() - 1, BigInt::zero(), BigInt::one(), -BigInt::one()] {
+            out.push((f, Op::Neg(x.clone())));
+            out.push((f, Op::Abs(x.clone())));
+            out.push((f, Op::Div(x, BigInt::zero())));
+        }
+        // conversions from / to every primitive type at its limits
+        for (ti, (_, bits, signed)) in PRIMS.iter().enumerate() {
+            let (lo, hi) = (ty_min(*bits, *signed), ty_max(*bits, *signed));
+            for v in [lo.clone(), hi.clone(), BigInt::zero(), BigInt::one(), -BigInt::one()] {
+                if v >= lo && v <= hi {
+                    out.push((f, Op::FromPrim(ti, v)));
+                }
+            }
+            for k in [&lo - 1, lo.clone(), &lo + 1, &hi - 1, hi.clone(), &hi + 1, BigInt::zero()] {
+                for dl in -1..=1 {
+                    let v = &k * &one + dl;
+                    if f.fits(&v) {
+                        out.push((f, Op::ToPrim(ti, v)));
+                    }
+                }
+            }
+        }
+        // conversions from every big integer type at its own limits and at the limits of the format
+        let lim_hi = trunc_div(&f.max(), &one);
+        let lim_lo = trunc_div(&f.min(), &one);
+        for (ti, (_, bits, signed)) in BNUMS.iter().enumerate() {
+            if f == Fmt::Dec && *bits == 384 {
+                continue;
+            }
+            let (lo, hi) = (ty_min(*bits, *signed), ty_max(*bits, *signed));
+            let mut vs = vec![lo.clone(), hi.clone(), &lo + 1, &hi - 1, BigInt::zero(), BigInt::one(), -BigInt::one()];
+            for c in [lim_hi.clone(), lim_lo.clone(), pow2(f.bits() - 1), -pow2(f.bits() - 1)] {
+                for dl in -1..=1 {
+                    vs.push(&c + dl);
+                }
+            }
+            for v in vs {
+                if v >= lo && v <= hi {
+                    out.push((f, Op::TryFromInt(ti, v)));
+                }
+            }
+        }
+    }
+    // between the two types
+    for x in [Fmt::Dec.min(), Fmt::Dec.min() + 1, Fmt::Dec.max(), Fmt::Dec.max() - 1, BigInt::zero(), BigInt::one(), -BigInt::one()] {
+        out.push((Fmt::Dec, Op::DecToPdec(x)));
+    }
+    let d18 = pow10(18);
+    for tg in [Fmt::Dec.min() - 1, Fmt::Dec.min(), Fmt::Dec.min() + 1, Fmt::Dec.max() - 1, Fmt::Dec.max(), Fmt::Dec.max() + 1, BigInt::zero()] {
+        for off in [BigInt::zero(), BigInt::one(), -BigInt::one(), &d18 - 1, -(&d18 - 1), d18.clone(), -d18.clone()] {
+            let p = &tg * &d18 + off;
+            if Fmt::PDec.fits(&p) {
+                out.push((Fmt::PDec, Op::PdecToDec(p)));
+            }
+        }
+    }
+    for p in [Fmt::PDec.min(), Fmt::PDec.min() + 1, Fmt::PDec.max(), Fmt::PDec.max() - 1] {
+        out.push((Fmt::PDec, Op::PdecToDec(p)));
+    }
+    out
+}
+
+/// boundary class of a case (for the distribution and the floors)
+fn boundary_class(f: Fmt, op: &Op) -> Vec<String> {
+    let one = f.one();
+    let mut v = Vec::new();
+    let which = |e: &BigInt, lo: &BigInt, hi: &BigInt| -> Option<&'static str> {
+        if *e == lo - 1 {
+            Some("min_minus_1")
+        } else if e == lo {
+            Some("min")
+        } else if *e == lo + 1 {
+            Some("min_plus_1")
+        } else if *e == hi - 1 {
+            Some("max_minus_1")
+        } else if e == hi {
+            Some("max")
+        } else if *e == hi + 1 {
+            Some("max_plus_1")
+        } else {
+            None
+        }
+    };
+    let exact = match op {
+        Op::Add(a, b) => Some(a + b),
+        Op::Sub(a, b) => Some(a - b),
+        Op::Mul(a, b) => Some(trunc_div(&(a * b), &one)),
+        Op::Div(a, b) if !b.is_zero() => Some(trunc_div(&(a * &one), b)),
+        Op::Neg(a) => Some(-a),
+        Op::Abs(a) => Some(a.abs()),
+        _ => None,
+    };
+    if let Some(e) = exact {
+        if let Some(w) = which(&e, &f.min(), &f.max()) {
+            v.push(format!("lim_{}_{}_{}", f.name(), op_kind(op), w));
+        }
+    }
+    match op {
+        Op::Div(_, b) if b.is_zero() => v.push(format!("lim_{}_div_by_zero", f.name())),
+        Op::Div(_, b) if b.abs().is_one() => v.push(format!("lim_{}_div_by_{}_atto", f.name(), if b.is_negative() { "minus_one" } else { "one" })),
+        Op::Mul(a, b) if a.abs().is_one() || b.abs().is_one() => v.push(format!("lim_{}_mul_by_one_atto", f.name())),
+        Op::PdecToDec(p) => {
+            let e = trunc_div(p, &pow10(18));
+            if let Some(w) = which(&e, &Fmt::Dec.min(), &Fmt::Dec.max()) {
+                v.push(format!("lim_pdec_to_dec_{}", w));
+            }
+        }
+        Op::TryFromInt(t, x) => {
+            let e = x * &one;
+            let cls = if f.fits(&e) && !f.fits(&(&e + &one)) {
+                Some("largest_fitting")
+            } else if f.fits(&e) && !f.fits(&(&e - &one)) {
+                Some("smallest_fitting")
+            } else if !f.fits(&e) && f.fits(&(&e - &one)) {
+                Some("first_above")
+            } else if !f.fits(&e) && f.fits(&(&e + &one)) {
+                Some("first_below")
+            } else {
+                None
+            };
+            if let Some(c) = cls {
+                v.push(format!("lim_{}_try_from_{}_{}", f.name(), BNUMS[*t].0, c));
+            }
+            if *x == ty_min(BNUMS[*t].1, BNUMS[*t].2) || *x == ty_max(BNUMS[*t].1, BNUMS[*t].2) {
+                v.push(format!("lim_{}_try_from_{}_type_limit", f.name(), BNUMS[*t].0));
+            }
+        }
+        Op::FromPrim(t, x) => {
+            if *x == ty_min(PRIMS[*t].1, PRIMS[*t].2) || *x == ty_max(PRIMS[*t].1, PRIMS[*t].2) {
+                v.push(format!("lim_{}_from_{}_type_limit", f.name(), PRIMS[*t].0));
+            }
+        }
+        Op::ToPrim(t, x) => {
+            if (x % &one).is_zero() {
+                let q = x / &one;
+                if let Some(w) = which(&q, &ty_min(PRIMS[*t].1, PRIMS[*t].2), &ty_max(PRIMS[*t].1, PRIMS[*t].2)) {
+                    v.push(format!("lim_{}_to_{}_{}", f.name(), PRIMS[*t].0, w));
+                }
+            }
+        }
+        _ => {}
+    }
+    v
+}
+
+const FAMILY_FLOORS: &[(&str, u64)] = &include!("c24_family_floors.in");
+
 fn main() {
     let args = Args::parse();
     let mut report = Report::new(
         "C24",
         args.seed,
-        "checked add/sub/mul/div/neg/abs and conversions of Decimal and PreciseDecimal on values uniform in bit length, \
+        "deterministic boundary family (every seed): results landing exactly on MIN/MAX and +-1 unit for add/sub/mul/div with fixed operands and divisors (+-1 atto, +-ONE, ...), zero divisors, \
+         conversions at the limits of every source/target integer type and of the other decimal type; then random: \
+         checked add/sub/mul/div/neg/abs and conversions of Decimal and PreciseDecimal on values uniform in bit length, \
          boundary values and operands aimed at results next to MIN/MAX; non-trivial = binary operation or conversion whose \
          exact result is within 2^8 of a range limit or which is a mul/div with a non-zero truncated remainder; distinct by operation text",
     );
@@ -501,7 +728,9 @@ fn main() {
     fixed_ops.push((Fmt::PDec, Op::PdecToDec(Fmt::Dec.min() * pow10(18) - pow10(18))));
     fixed_ops.push((Fmt::Dec, Op::TryFromInt(1, -pow2(191))));
 
-    for i in 0..args.cases {
+    fixed_ops.extend(boundary_family());
+    let nfam = fixed_ops.len();
+    for i in 0..(nfam + args.cases) {
         let mut rng = root.fork(i as u64);
         let (f, op) = if i < fixed_ops.len() {
             fixed_ops[i].clone()
@@ -521,6 +750,9 @@ fn main() {
         let canon = format!("{} {}", f.name(), op_coq(&op));
 
         // distribution
+        for c in boundary_class(f, &op) {
+            report.count(&c);
+        }
         report.count(&format!("op_{}", op_kind(&op)));
         report.count(match &out {
             Out::Ok(_) => "out_ok",
@@ -581,6 +813,10 @@ fn main() {
             report.sample(json!({"format": f.name(), "op": op_coq(&op), "out": out.short()}));
         }
         cw.push(format!("({}, {}, {})", f.coq(), op_coq(&op), out.coq()));
+    }
+    report.extra.insert("boundary_family_cases".into(), json!(nfam));
+    for (k, m) in FAMILY_FLOORS {
+        report.floor(k, *m);
     }
     let n = args.cases as u64;
     report.floor("result_near_range_limit", n / 40);
